@@ -1,10 +1,14 @@
 """C19 — auto-started services get held messages once, in order, or callers get errors."""
 from ..common import *
-from .. import check, busdiff, actdiff, actcheck, actgen
+from .. import check, busdiff, actdiff, actcheck, actgen, helpercheck
 from ..bus import method_call, BUS, BUS_PATH
 
 MODULE = "Dbus.Props.C19"
-THEOREMS = []
+THEOREMS = ["program_started_at_most_once_per_activation", "one_pending_activation_per_name", "activateService_fresh",
+            "held_messages_once_in_arrival_order", "nothing_pending_nothing_sent", "allowed_held_message_is_delivered",
+            "start_callers_answered_once", "failure_each_waiter_one_error", "connected_waiter_gets_the_error",
+            "timeout_fails_every_waiter", "clean_exit_is_ignored", "stale_program_exit_is_silent",
+            "helper_executes_iff", "helper_refuses_invalid_name", "helper_refuses_other_name"]
 
 RESTRICTIVE = busdiff.Policy(busdiff.SESSION.rules + [
     ("default", False, {"receive_interface": "a.b.c"}),                       # refused only once the recipient is known
@@ -47,6 +51,7 @@ SCRIPT_FILES = actgen.DEFAULT_FILES + [("s1.service", "com.example.S1", "shared"
 def run(ctx):
     if THEOREMS:
         check.lean_obligations(ctx, MODULE, THEOREMS)
+    helpercheck.run_check(ctx)
     n = 70 if ctx.quick() else 1500
     svc = actdiff.Svc(actgen.DEFAULT_FILES)
     actcheck.run_histories(ctx, 0, 0, actdiff.Svc(SCRIPT_FILES), scripts=scripts(), label="scenarios")
